@@ -23,9 +23,10 @@ def load_meta(pid):
 
 def main():
     checks, na = [], []
+    integrated = set((V / 'tools' / 'integrated.txt').read_text().split())
     for p in props:
         pid = p['id']
-        m = load_meta(pid)
+        m = load_meta(pid) if pid in integrated else None
         if m:
             checks.append({
                 'property_id': pid,
